@@ -4,6 +4,7 @@ package main
 import (
 	"encoding/json"
 	"fmt"
+	goformat "go/format"
 	"go/token"
 	"go/types"
 	"math"
@@ -93,7 +94,45 @@ func init() {
 		"fmt.Printf":   func(ex *Exec, a []Value, fr *Frame, pos token.Pos) Value { return TupleV{bvConst(64, 0), IfaceV{}} },
 		"fmt.Print":    func(ex *Exec, a []Value, fr *Frame, pos token.Pos) Value { return TupleV{bvConst(64, 0), IfaceV{}} },
 		"fmt.Fprintf":  (*Exec).fprintf,
-		"fmt.Fprint":   func(ex *Exec, a []Value, fr *Frame, pos token.Pos) Value { return TupleV{bvConst(64, 0), IfaceV{}} },
+		"fmt.Fprint": func(ex *Exec, a []Value, fr *Frame, pos token.Pos) Value {
+			sl := a[1].(SliceV)
+			str := ex.sprintf(StrV{s: strings.Repeat("%v", sl.n)}, sl, fr).(StrV)
+			return ex.writeString(a[0].(IfaceV), str, fr, pos)
+		},
+		"go/format.Source": func(ex *Exec, a []Value, fr *Frame, pos token.Pos) Value {
+			sl := a[0].(SliceV)
+			bs := make([]byte, sl.n)
+			for i := range bs {
+				t := load(sl.arr[sl.off+i]).(*Term)
+				if !t.conc {
+					panic(unsupported{"format.Source of symbolic bytes"})
+				}
+				bs[i] = byte(t.cv)
+			}
+			out, err := goformat.Source(bs)
+			if err != nil {
+				return TupleV{SliceV{}, ex.makeErrorValue(err.Error())}
+			}
+			return TupleV{ex.strToBytes(StrV{s: string(out)}, types.NewSlice(types.Typ[types.Uint8])), IfaceV{}}
+		},
+		"(golang.org/x/text/cases.Caser).String": func(ex *Exec, a []Value, fr *Frame, pos token.Pos) Value {
+			// contract stub for cases.Title(language.Und, cases.NoLower): upper-case the first letter of every word
+			s := ex.concStr(a[1].(StrV), "cases.Title")
+			out := []rune(s)
+			start := true
+			for i, r := range out {
+				isWord := r == '_' || r == '\'' || (r >= '0' && r <= '9') || (r >= 'a' && r <= 'z') || (r >= 'A' && r <= 'Z') || r > 127
+				if isWord && start && r >= 'a' && r <= 'z' {
+					out[i] = r - 32
+				}
+				start = !isWord
+			}
+			return StrV{s: string(out)}
+		},
+		"golang.org/x/text/cases.Title": func(ex *Exec, a []Value, fr *Frame, pos token.Pos) Value {
+			return ex.zero(ex.lookupType("golang.org/x/text/cases", "Caser"))
+		},
+		"golang.org/x/text/cases.NoLower": nil,
 		"fmt.Fprintln": func(ex *Exec, a []Value, fr *Frame, pos token.Pos) Value { return TupleV{bvConst(64, 0), IfaceV{}} },
 		"errors.As":    (*Exec).errorsAs,
 		"errors.Is":    (*Exec).errorsIs,
@@ -278,6 +317,16 @@ func init() {
 			panic(unsupported{"json.Marshal"})
 		},
 		"maps.Clone[map[string]any]": nil,
+		"internal/bytealg.MakeNoZero": func(ex *Exec, a []Value, fr *Frame, pos token.Pos) Value {
+			n := ex.concInt(a[0], "MakeNoZero")
+			arr := make([]*Cell, n)
+			for i := range arr {
+				arr[i] = ex.newCell(types.Typ[types.Uint8])
+			}
+			return SliceV{arr: arr, n: n, cp: n, nonNil: true}
+		},
+		"internal/abi.NoEscape":           func(ex *Exec, a []Value, fr *Frame, pos token.Pos) Value { return a[0] },
+		"(*strings.Builder).copyCheck":    func(ex *Exec, a []Value, fr *Frame, pos token.Pos) Value { return nil },
 		"os.Exit": func(ex *Exec, a []Value, fr *Frame, pos token.Pos) Value {
 			panic(pathAbort{"os.Exit called"})
 		},
@@ -288,6 +337,7 @@ func init() {
 		"time.Sleep": func(ex *Exec, a []Value, fr *Frame, pos token.Pos) Value { ex.yield("sleep"); return nil },
 	}
 	delete(intrinsicTable, "maps.Clone[map[string]any]")
+	delete(intrinsicTable, "golang.org/x/text/cases.NoLower")
 }
 
 func sortStrings(ss []string) {
@@ -652,10 +702,36 @@ func (ex *Exec) errorMessage(v IfaceV, fr *Frame) (msg string, ok bool) {
 func (ex *Exec) fprintf(a []Value, fr *Frame, pos token.Pos) Value {
 	w := a[0].(IfaceV)
 	s := ex.sprintf(a[1].(StrV), a[2].(SliceV), fr).(StrV)
+	return ex.writeString(w, s, fr, pos)
+}
+
+// writeString writes to an io.Writer through its interpreted Write method (os.Stdout/os.Stderr are discarded).
+func (ex *Exec) writeString(w IfaceV, s StrV, fr *Frame, pos token.Pos) Value {
 	if ex.fprintfHook != nil {
 		ex.fprintfHook(w, s)
 	}
-	return TupleV{bvConst(64, 0), IfaceV{}}
+	if w.typ == nil {
+		ex.rtPanic(fr, pos, "invalid memory address or nil pointer dereference")
+	}
+	if strings.Contains(typeStr(w.typ), "os.File") {
+		return TupleV{bvConst(64, 0), IfaceV{}}
+	}
+	if typeStr(w.typ) == "*bufio.Writer" {
+		if p, ok := w.v.(Ptr); ok && p.c != nil {
+			if n, ok := p.c.val.(NativeV); ok {
+				if under, ok := n.v.(Value).(IfaceV); ok {
+					return ex.writeString(under, s, fr, pos)
+				}
+			}
+		}
+		panic(unsupported{"bufio.Writer without an underlying writer"})
+	}
+	fn := ex.lookupMethod(w.typ, "Write")
+	if fn == nil {
+		return TupleV{bvConst(64, 0), IfaceV{}}
+	}
+	bs := ex.strToBytes(ex.byteForm(s), types.NewSlice(types.Typ[types.Uint8]))
+	return ex.callFunction(fn, []Value{w.v, bs}, nil, fr, pos)
 }
 
 // sprintf formats natively when everything is concrete; a lone integer under %d yields a Dec string; anything
